@@ -112,8 +112,10 @@ def patch_text(isa, lines, fmt="elf"):
         elif ln.get("d") == "balign":
             out.append(f".balign {ln['n']}")
         else:
-            out.append(vocab.asm_text(isa, ln["k"], ln.get("t"),
-                                      ln.get("imm")))
+            t = ln.get("t")
+            if t is not None and ln.get("add"):
+                t = f"{t}{ln['add']:+d}"
+            out.append(vocab.asm_text(isa, ln["k"], t, ln.get("imm")))
     return "\n".join(out) + "\n"
 
 
